@@ -245,6 +245,28 @@ fn print_state<T: Smp>(r: &R<T>) {
     if v != g {
         println!("GV MISMATCH {} {} {} {} {} {}", v.0, v.1, v.2, v.3, v.4, v.5);
     }
+    // input_buffer_allocate / output_buffer_allocate (trait and object-safe wrapper): nbr_channels() vectors of
+    // input_frames_max() / output_frames_max() frames (filled) or of that capacity (not filled); silent when they are
+    let (imax, omax, nch) = (g.0, g.2, g.5);
+    if imax.saturating_mul(nch.max(1)) <= 2_000_000 && omax.saturating_mul(nch.max(1)) <= 2_000_000 {
+        let ok = each!(r, x => {
+            let a = Resampler::input_buffer_allocate(x, true);
+            let b = Resampler::input_buffer_allocate(x, false);
+            let c = Resampler::output_buffer_allocate(x, true);
+            let d = Resampler::output_buffer_allocate(x, false);
+            let va = VecResampler::input_buffer_allocate(x, true);
+            let vc = VecResampler::output_buffer_allocate(x, false);
+            a.len() == nch && a.iter().all(|w| w.len() == imax)
+                && b.len() == nch && b.iter().all(|w| w.is_empty() && w.capacity() >= imax)
+                && c.len() == nch && c.iter().all(|w| w.len() == omax)
+                && d.len() == nch && d.iter().all(|w| w.is_empty() && w.capacity() >= omax)
+                && va.len() == nch && va.iter().all(|w| w.len() == imax)
+                && vc.len() == nch && vc.iter().all(|w| w.is_empty() && w.capacity() >= omax)
+        });
+        if !ok {
+            println!("AL MISMATCH");
+        }
+    }
     match r {
         R::FastIn(x) => {
             println!("{}", state_line(&x.verif_state(), &[1, 2, 3]));
